@@ -170,3 +170,107 @@ def iter_nth(ex, st, fr, name, args, dty):
         ex.store(s2, ref.cell, ref.path, VAgg(it.ty, it.variant, [it.fields[0], VInt(data.len, 64)]))
         out.append((s2, mk('Option', 'None'), 'ok', ''))
     return out
+
+
+@model(r'core::str::<impl str>::(is_empty|len)$|<impl str>::(is_empty|len)$')
+def str_len(ex, st, fr, name, args, dty):
+    """length / emptiness of a string view with a symbolic backing array"""
+    from models import slice_of
+    b = slice_of(ex, st, args[0])
+    if b is None:
+        return None
+    if strip_generics(name).endswith('is_empty'):
+        return [(st, VBool(b.len == 0), 'ok', '')]
+    return [(st, VInt(b.len, 64), 'ok', '')]
+
+
+@model(r'<(std::str::|core::str::)?(Chars|CharIndices)<.*> as (\w+::)*Iterator>::(all|any)$')
+def iter_all_any(ex, st, fr, name, args, dty):
+    """all / any over the rest of an ASCII string iterator (strings of at most 8 characters)"""
+    ref, it = _deref_iter(ex, st, args[0])
+    if it is None or it.ty != 'AsciiIter' or not isinstance(ref, VRef):
+        return None
+    is_all = strip_generics(name).endswith('::all')
+    results = []
+    work = [(st, 0)]
+    while work:
+        s, k = work.pop()
+        if k > 9:
+            raise Refuse('all()/any(): string longer than the modelled bound')
+        cur = ex.load(s, ref.cell, ref.path)
+        for s2, item in _next(ex, s, ref, cur):
+            if item.variant == 'None':
+                results.append((s2, VBool(is_all), 'ok', ''))
+                continue
+            for (s3, r, kind, msg) in call_fn_value(ex, s2, fr, args[1], [item.fields[0]]):
+                if kind != 'ok':
+                    results.append((s3, r, kind, msg))
+                    continue
+                if not isinstance(r, VBool):
+                    raise Refuse('all()/any(): predicate result is not a bool')
+                for val, cond in ((True, r.e), (False, z3.Not(r.e))):
+                    if ex.feasible(s3.pc + [cond]):
+                        s4 = s3.fork()
+                        s4.pc.append(cond)
+                        if val == is_all:
+                            work.append((s4, k + 1))
+                        else:
+                            results.append((s4, VBool(not is_all), 'ok', ''))
+    return results
+
+
+@model(r'core::str::<impl str>::get$|<impl str>::get$')
+def str_get(ex, st, fr, name, args, dty):
+    """str::get(lo..hi) on an ASCII view: Some(sub-view) iff lo <= hi <= len (every offset is a char boundary on ASCII)"""
+    from models import new_slice
+    b = slice_of(ex, st, args[0])
+    idx = args[1]
+    if b is None or not (isinstance(idx, VAgg) and 'Range' in str(idx.ty)):
+        return None
+    ints = [x for x in idx.fields if isinstance(x, VInt)]
+    kind = str(idx.ty).split('::')[-1]
+    if kind == 'Range' and len(ints) == 2:
+        lo, hi = ints[0].e, ints[1].e
+    elif kind == 'RangeFrom' and len(ints) == 1:
+        lo, hi = ints[0].e, b.len
+    elif kind == 'RangeTo' and len(ints) == 1:
+        lo, hi = z3.BitVecVal(0, 64), ints[0].e
+    else:
+        return None
+    okc = z3.And(z3.ULE(lo, hi), z3.ULE(hi, b.len))
+    out = []
+    if ex.feasible(st.pc + [okc]):
+        s2 = st.fork()
+        s2.pc.append(okc)
+        out.append((s2, mk('Option', 'Some', new_slice(ex, s2, b, lo, hi - lo)), 'ok', ''))
+    if ex.feasible(st.pc + [z3.Not(okc)]):
+        s2 = st.fork()
+        s2.pc.append(z3.Not(okc))
+        out.append((s2, mk('Option', 'None'), 'ok', ''))
+    return out
+
+
+@model(r'<impl u8>::from_str_radix$')
+def u8_from_str_radix(ex, st, fr, name, args, dty):
+    """u8::from_str_radix(s, 16) on a two-byte ASCII string: Ok(value) iff "hh" or "+h" (unsigned: a leading '+' is accepted, '-' is not)"""
+    b = slice_of(ex, st, args[0])
+    if b is None or not isinstance(args[1], VInt) or ex.concrete(args[1].e) != 16 or ex.concrete(b.len) != 2:
+        return None
+    c0, c1 = z3.Select(b.arr, b.off), z3.Select(b.arr, b.off + 1)
+
+    def hx(c):
+        return z3.Or(z3.And(z3.UGE(c, 48), z3.ULE(c, 57)), z3.And(z3.UGE(c, 65), z3.ULE(c, 70)), z3.And(z3.UGE(c, 97), z3.ULE(c, 102)))
+
+    def val(c):
+        return z3.If(z3.ULE(c, 57), c - 48, z3.If(z3.ULE(c, 70), c - 55, c - 87))
+    okc = z3.Or(z3.And(hx(c0), hx(c1)), z3.And(c0 == 43, hx(c1)))
+    out = []
+    if ex.feasible(st.pc + [okc]):
+        s2 = st.fork()
+        s2.pc.append(okc)
+        out.append((s2, mk('Result', 'Ok', VInt(z3.If(c0 == 43, val(c1), val(c0) * 16 + val(c1)), 8)), 'ok', ''))
+    if ex.feasible(st.pc + [z3.Not(okc)]):
+        s2 = st.fork()
+        s2.pc.append(z3.Not(okc))
+        out.append((s2, mk('Result', 'Err', VSym(('err', 'ParseIntError'), 'ParseIntError')), 'ok', ''))
+    return out
